@@ -106,7 +106,7 @@ static void run_group_script(const char *ops) {
 		else printf(" -77 -77 %d %d", nq->do_ref_cnt - nqbase, atomic_load(&delivered));
 		fflush(stdout);
 	}
-	if (hasfin && ctxid) wait_for(&fin_runs, 1);
+	if (hasfin && ctxid && !((x > 0) || (in > 0) || (enters > 0) || (pend > 0))) wait_for(&fin_runs, 1);   // everything dropped: it must come
 	usleep(2000);
 	printf(" | %d %d %d %d 0\n", atomic_load(&fin_runs), atomic_load(&fin_ctx_id), atomic_load(&fin_queue_id), atomic_load(&delivered));
 	fflush(stdout);
@@ -139,7 +139,10 @@ static void run_lane_script(const char *ops) {
 		case 'M': dispatch_source_set_timer(src, dispatch_time(DISPATCH_TIME_NOW, 3600 * NSEC_PER_SEC), DISPATCH_TIME_FOREVER, 0);
 			dispatch_activate(src); break;
 		case 'X': dispatch_source_cancel(src); wait_for(&cancel_done, 1); break;      // the cancel handler runs after unregistration
-		case 'Z': dispatch_release(src); wait_for(&cancel_done, 1); src = NULL; shown._dq = q; break;   // releasing cancels
+		case 'Z': { int before = (x > 0 || nk > 0) ? *(volatile int *)&q->do_ref_cnt : 0; dispatch_release(src);       // the source gives up its target reference when it is disposed
+			if (x > 0 || nk > 0) { for (int k = 0; k < 25000 && *(volatile int *)&q->do_ref_cnt >= before; k++) usleep(100); }
+			else if (hasfin) wait_for(&fin_runs, 1); else usleep(30000);   // q itself goes away with the source: do not touch it
+			src = NULL; shown._dq = q; } break;
 		case 'v': qi = dispatch_queue_create("c17.qi", dispatch_queue_attr_make_initially_inactive(NULL)); shown._dq = qi; break;
 		case 'V': dispatch_activate(qi); usleep(300); dispatch_release(qi); qi = NULL; shown._dq = q; break;
 		case 'z': break;
